@@ -139,6 +139,13 @@ type fakeBackend struct {
 	params *consensusAPI.Parameters
 	proof  *transaction.Proof
 
+	// latestScript, when set, is consumed one value per GetLatestHeight call (the last value
+	// sticks): a provider whose tip moves between two calls of one request.
+	latestScript []int64
+	// perHeight, when set, makes GetTransactions / GetBlockResults answer for the height that
+	// is asked (an honest provider with the whole chain), instead of the fixed txs / res.
+	perHeight func(h int64) ([][]byte, *consensusAPI.BlockResults)
+
 	// watchCh feeds Core.Serve (WatchBlocks of the provider).
 	watchCh chan *consensusAPI.Block
 
@@ -159,6 +166,13 @@ var errNoResponse = fmt.Errorf("fake provider: no response configured")
 
 func (b *fakeBackend) GetLatestHeight(context.Context) (int64, error) {
 	b.calls["GetLatestHeight"]++
+	if len(b.latestScript) > 0 {
+		v := b.latestScript[0]
+		if len(b.latestScript) > 1 {
+			b.latestScript = b.latestScript[1:]
+		}
+		return v, nil
+	}
 	return b.latest, nil
 }
 
@@ -170,13 +184,23 @@ func (b *fakeBackend) GetBlock(context.Context, int64) (*consensusAPI.Block, err
 	return b.blk, nil
 }
 
-func (b *fakeBackend) GetTransactions(context.Context, int64) ([][]byte, error) {
+func (b *fakeBackend) GetTransactions(_ context.Context, h int64) ([][]byte, error) {
 	b.calls["GetTransactions"]++
+	if b.perHeight != nil {
+		txs, _ := b.perHeight(h)
+		return txs, nil
+	}
 	return b.txs, nil
 }
 
-func (b *fakeBackend) GetBlockResults(context.Context, int64) (*consensusAPI.BlockResults, error) {
+func (b *fakeBackend) GetBlockResults(_ context.Context, h int64) (*consensusAPI.BlockResults, error) {
 	b.calls["GetBlockResults"]++
+	if b.perHeight != nil {
+		if _, res := b.perHeight(h); res != nil {
+			return res, nil
+		}
+		return nil, errNoResponse
+	}
 	if b.res == nil {
 		return nil, errNoResponse
 	}
